@@ -209,7 +209,7 @@ def make_machine(coll: Collector, tally: Tally):
             self.ready = False
             self.pending: list[Violation] = []
 
-        @initialize(specs=st.lists(S_SPEC, min_size=0, max_size=4), maximize=st.booleans())
+        @initialize(specs=st.one_of(st.lists(S_SPEC, min_size=0, max_size=4), st.lists(S_SPEC, min_size=2, max_size=4)), maximize=st.booleans())
         def setup(self, specs, maximize):
             if coll.quiet():
                 return
@@ -229,6 +229,17 @@ def make_machine(coll: Collector, tally: Tally):
         @rule(v=S_VALUE)
         def evaluate(self, v):
             self._do({"op": "evaluate", "v": v})
+
+        @rule(t=st.sampled_from([0.0, 0.5, 1.0, -1.0, -0.5, 1.0000001, 2.0]), which=st.integers(0, 3))
+        def evaluate_near_optimum(self, t, which):
+            """a value steered relative to the band of one of the stack's precision layers (on / inside / just outside)"""
+            if coll.quiet() or not self.ready:
+                return
+            prec = [s_ for s_ in self.case["stack"] if s_["kind"] == "precision"]
+            if not prec:
+                return
+            s_ = prec[which % len(prec)]
+            self._do({"op": "evaluate", "v": s_["opt"] + t * s_["eps"]})
 
         @rule(a=S_VALUE, b=S_VALUE)
         def compare(self, a, b):
